@@ -134,8 +134,13 @@ def identity_bytes(v):
     if k == "pred":
         if v.get("imm"):
             return list(untok(v["i"]) + b"immutable")
-        e = varint(unixnano(int(v["sec"]), v.get("ns", 0)))
-        return list(untok(v["i"])) + e + [0] * (16 - len(e))
+        exact = int(v["sec"]) * 1000000000 + v.get("ns", 0)
+        if -2 ** 63 <= exact <= 2 ** 63 - 1:
+            e = varint(exact)
+            return list(untok(v["i"])) + e + [0] * (16 - len(e))
+        # outside the range of UnixNano (repaired code): seconds, nanoseconds, last byte 1
+        e = varint(int(v["sec"])) + varint(v.get("ns", 0))
+        return list(untok(v["i"])) + e + [0] * (15 - len(e)) + [1]
     if k == "lit":
         return list(v["t"].encode() + b":") + lit_payload(v)
     if k == "obj":
@@ -209,6 +214,11 @@ def identityu_tla(u, repaired=True):
                 r["num"] = instant(v)
                 n = unixnano(int(v["sec"]), v.get("ns", 0))
                 r["enc"] = varint(n)
+                exact = int(v["sec"]) * 1000000000 + v.get("ns", 0)
+                if repaired and not (-2 ** 63 <= exact <= 2 ** 63 - 1):
+                    # outside the range of UnixNano: seconds and nanoseconds one after the other, last byte 1
+                    e = varint(int(v["sec"])) + varint(v.get("ns", 0))
+                    r["enc"] = e + [0] * (15 - len(e)) + [1]
                 r["dec"] = list(str(n).encode())     # the decimal text of UnixNano (a variant encoding, see Identity.tla)
                 if abs(n) < 2 ** 29:
                     r["small"], r["hasSmall"] = n, True
